@@ -383,6 +383,15 @@ fn cls(base: &str, hel64: bool) -> String {
     format!("C06:{}{}", base, if hel64 { "-hel64" } else { "" })
 }
 
+/// keep oracle descriptions short (the op line itself is appended by the harness)
+fn short(s: &str) -> String {
+    if s.len() > 260 {
+        format!("{}...", &s[..260])
+    } else {
+        s.to_string()
+    }
+}
+
 fn panic_cls(loc: &str) -> String {
     format!("C04:panic-{}", loc)
 }
@@ -421,7 +430,7 @@ fn check_spec_parse(d: &[u8], obs: &Sub<ParseObs>, o: &mut Oracle) {
                 }
                 _ => "spec-parse-lct".to_string(),
             };
-            o.fail(&cls(&stage, h), &format!("RFC-valid datagram refused by parse_alc_pkt; independent decoder reads {}", rd::show_decode(d)));
+            o.fail(&cls(&stage, h), &format!("RFC-valid datagram refused by parse_alc_pkt; independent decoder reads {}", short(&rd::show_decode(d))));
             return;
         }
     };
@@ -658,7 +667,7 @@ impl WireEngine {
                 let f = &p.lct;
                 let mut bad: Vec<String> = Vec::new();
                 if !(f.v == 1 && f.psi == 0 && f.res == 0 && f.cci == a.cci && f.tsi == a.tsi && f.toi == a.toi && f.cp == fec && f.a == 0 && (f.b == 1) == a.co) {
-                    bad.push(format!("LCT fields {}", rd::show_decode(&d)));
+                    bad.push(format!("LCT fields {}", short(&rd::show_decode(&d))));
                 }
                 let mut want_hets: Vec<u8> = Vec::new();
                 if want_fdt.is_some() {
@@ -800,7 +809,7 @@ impl WireEngine {
                     && p.payload_offset == Some(d.len())
             });
             if !ok_rfc {
-                o.fail("C06:close-build-ne-rfc", &format!("independent decoder reads {}", rd::show_decode(&d)));
+                o.fail("C06:close-build-ne-rfc", &format!("independent decoder reads {}", short(&rd::show_decode(&d))));
             }
             let ok_rt = match flute_parse(&d, PidOti::Default) {
                 Sub::Ok(po) => po.lct.cs && !po.lct.co && po.lct.cci == cci && po.lct.tsi == tsi && po.lct.toi == 0 && po.lct.cp == 0 && po.payoff == d.len(),
@@ -890,7 +899,7 @@ impl WireEngine {
             if obs != Sub::Ok(want.clone()) {
                 o.fail(
                     &cls("spec-ext-walk", hel64),
-                    &format!("get_ext({}) = {:?} / RFC walk finds {:?}", het, obs.show(|r| r.as_ref().map_or("none".into(), |b| hex(b)), "ok "), want.map(|b| hex(&b))),
+                    &format!("get_ext({}) = {} / RFC walk finds {}", het, short(&obs.show(|r| r.as_ref().map_or("none".into(), |b| hex(b)), "ok ")), short(&want.map_or("none".to_string(), |b| hex(&b)))),
                 );
             }
         }
